@@ -333,9 +333,9 @@ def mpn_tdiv_qr_tmpq (s : St) (ql : Nat) (rp : Ptr) (np : Src) (nl : Nat) (dp : 
 def copyIfSame (same : Bool) (s : St) (p : Ptr) (n : Nat) : Src × St :=
   if same then (Src.tmp (tmp_copy s p n).1 0, (tmp_copy s p n).2) else (Src.ptr p, s)
 
-/-- mpz_tdiv_q (quot, num, den), tdiv_q.c:30-87; `none` = DIVIDE_BY_ZERO.  `ra ql` = the size requested from MPZ_REALLOC
-    (`ql` in the C). -/
-def tdiv_q (ra : Nat → Nat) (s : St) (quot num den : Nat) : Option St :=
+/-- mpz_tdiv_q (quot, num, den), tdiv_q.c:30-87; `none` = DIVIDE_BY_ZERO.  `ql - minus` = the size requested from MPZ_REALLOC
+    (`ql` in the C: minus = 0). -/
+def tdiv_q (minus : Nat) (s : St) (quot num den : Nat) : Option St :=
   let ns := s.SIZ num                                                         -- tdiv_q.c:37
   let ds := s.SIZ den                                                         -- :38
   let nl := ns.natAbs                                                         -- :39
@@ -344,7 +344,7 @@ def tdiv_q (ra : Nat → Nat) (s : St) (quot num den : Nat) : Option St :=
   else if nl + 1 ≤ dl then some (s.setSize quot 0)                            -- :41, 46-50 ql <= 0
   else
     let ql := nl - dl + 1                                                     -- :41
-    let s := MPZ_REALLOC s quot (ra ql)                                       -- :52
+    let s := MPZ_REALLOC s quot (ql - minus)                                     -- :52
     let qp := s.PTR quot                                                      -- :55
     let np := s.PTR num                                                       -- :56
     let dp := s.PTR den                                                       -- :57
@@ -354,17 +354,17 @@ def tdiv_q (ra : Nat → Nat) (s : St) (quot num den : Nat) : Option St :=
     let (top, s) := s.load qp (ql - 1)                                        -- :83
     some (s.setSize quot (sgn (Mpz.diffSign ns ds) (ql - (if top == 0 then 1 else 0))))   -- :83, 85
 
-def mpz_tdiv_q (s : St) (quot num den : Nat) : Option St := tdiv_q id s quot num den
+def mpz_tdiv_q (s : St) (quot num den : Nat) : Option St := tdiv_q 0 s quot num den
 
-/-- mpz_tdiv_r (rem, num, den), tdiv_r.c:30-93; `ra dl` = the size requested from MPZ_REALLOC (`dl` in the C) -/
-def tdiv_r (ra : Nat → Nat) (s : St) (rem num den : Nat) : Option St :=
+/-- mpz_tdiv_r (rem, num, den), tdiv_r.c:30-93; `dl - minus` = the size requested from MPZ_REALLOC (`dl` in the C) -/
+def tdiv_r (minus : Nat) (s : St) (rem num den : Nat) : Option St :=
   let ns := s.SIZ num                                                         -- tdiv_r.c:37
   let ds := s.SIZ den                                                         -- :38
   let nl := ns.natAbs                                                         -- :39
   let dl := ds.natAbs                                                         -- :40
   if dl == 0 then none                                                        -- :43-44
   else
-    let s := MPZ_REALLOC s rem (ra dl)                                        -- :46
+    let s := MPZ_REALLOC s rem (dl - minus)                                      -- :46
     if nl + 1 ≤ dl then                                                       -- :48 ql <= 0
       if num != rem then                                                      -- :50
         let s := MPN_COPY s (s.PTR rem) (s.PTR num) nl                        -- :53-55
@@ -381,6 +381,6 @@ def tdiv_r (ra : Nat → Nat) (s : St) (rem num den : Nat) : Option St :=
       let (dl', s) := MPN_NORMALIZE s rp dl                                   -- :91
       some (s.setSize rem (sgn (ns < 0) dl'))                                 -- :93
 
-def mpz_tdiv_r (s : St) (rem num den : Nat) : Option St := tdiv_r id s rem num den
+def mpz_tdiv_r (s : St) (rem num den : Nat) : Option St := tdiv_r 0 s rem num den
 
 end Mpir.AllocSafe
